@@ -1,5 +1,5 @@
 CONSTANT Sets = {1, 2}
-CONSTANT Gs = {1, 4, 16}
+CONSTANT Gs = {1, 3, 4, 16}
 CONSTANT Reps = 2
 INIT Init
 NEXT Next
